@@ -57,7 +57,7 @@ PLAN = {
     "C11": {"level": "model_checking", "campaigns": [camp("c11", C.camp_c11, {"quick": ["opt"], "thorough": ["opt", "chk"]})]},
     "C12": {"level": "model_checking",
             "campaigns": [{"name": "c12tlc", "tlcgen": "it", "tags": Q}, camp("c12", C.camp_c12)]},
-    "C13": {"level": "model_checking", "campaigns": [{"name": "c13tlc", "tlcgen": "qb", "tags": Q}, camp("c13", C.camp_c13)]},
+    "C13": {"level": "model_checking", "campaigns": [{"name": "c13tlc", "tlcgen": "qb", "tags": QC}, camp("c13", C.camp_c13)]},
     "C19": {"level": "model_checking", "campaigns": [camp("c19", C.camp_c19)]},
     "C14": {"level": "model_checking", "campaigns": [camp("c14", C.camp_c14, {"quick": ["opt"], "thorough": ["opt"]})]},
     "C15": {"level": "model_checking", "campaigns": [camp("c15", C.camp_c15, {"quick": ["opt"], "thorough": ["opt"]})]},
